@@ -120,6 +120,10 @@ func c07QueryValset(env *Env, snapshotID uint64) *evmtypes.Valset {
 
 // c07Setup: chain with snapshot 1 live, compass contract on record, snapshot 2 built.
 func c07Setup() (env *Env, signing, target *evmtypes.Valset) {
+	return c07SetupABI(models.CompassABI)
+}
+
+func c07SetupABI(compassABI string) (env *Env, signing, target *evmtypes.Valset) {
 	env = New(100)
 	env.AddChain(ChainA, 1)
 	for i := 0; i < 3; i++ {
@@ -129,7 +133,7 @@ func c07Setup() (env *Env, signing, target *evmtypes.Valset) {
 	if err != nil {
 		panic(err)
 	}
-	sc, err := env.Evm.SaveNewSmartContract(env.Ctx, models.CompassABI, []byte{0x60})
+	sc, err := env.Evm.SaveNewSmartContract(env.Ctx, compassABI, []byte{0x60})
 	if err != nil {
 		panic(err)
 	}
@@ -162,7 +166,14 @@ func c07Count(env *Env, snapshotID uint64) int {
 }
 
 func VerifC07_Attest() {
-	env, signing, target := c07Setup()
+	// the compass contract on record may be one whose ABI cannot express the call at all
+	// (verification then fails with an error other than "not verified")
+	abiOK := !sym.Bool("recorded-compass-abi-lacks-the-call")
+	compassABI := models.CompassABI
+	if !abiOK {
+		compassABI = "[]"
+	}
+	env, signing, target := c07SetupABI(compassABI)
 	id := c07PutUpdate(env, target, signing.ValsetID)
 	m := c06Load(env, id)
 	relayer := models.EthAddrs[0]
@@ -215,13 +226,14 @@ func VerifC07_Attest() {
 	if after > 0 {
 		sym.Reach("snapshot-marked-live")
 		sym.Assert(same, "success-effects-only-for-the-exact-call-data")
+		sym.Assert(abiOK, "success-effects-only-when-the-call-data-could-be-verified")
 		sym.Assert(hasReceipt && status == 1, "success-effects-only-with-a-successful-receipt")
 		sym.Assert(voters >= 3, "success-effects-only-with-two-thirds-evidence")
 		sym.Assert(after == 1, "success-effects-applied-once")
 		sym.Assert(c06Load(env, id) == nil, "delivered-message-leaves-the-queue")
 	} else {
 		sym.Reach("snapshot-not-marked-live")
-		sym.Assert(!(same && hasReceipt && status == 1 && voters >= 3), "matching-successful-transaction-with-quorum-is-accepted")
+		sym.Assert(!(same && abiOK && hasReceipt && status == 1 && voters >= 3), "matching-successful-transaction-with-quorum-is-accepted")
 	}
 }
 
